@@ -52,7 +52,11 @@ HttpStep(st, m, ver) ==
       [] t = "http.response.trailers" ->
             IF s = "TRAILERS" /\ h2
             THEN R([st EXCEPT !.s = IF m.more THEN "TRAILERS" ELSE "CLOSED"], IF Dubious(m) THEN "any" ELSE "ok")
-            ELSE R(st, "any")
+            \* (not in the ASGI specification: trailers sent first.  Where the server accepts them it writes a
+            \*  response head of its own - from then on a response start is a second one)
+            ELSE IF s = "REQUEST" /\ h2
+                 THEN R([s |-> IF m.more THEN "TRAILERS" ELSE "CLOSED", tflag |-> TRUE], "any")
+                 ELSE R(st, "any")
       [] OTHER -> R(st, "any")          \* push / early_hint: gating by version and state is not in the statement
 
 (* WebSocket: DENIAL = websocket.http.response.start accepted, body chunks follow.  "raise" for: *)
